@@ -36,6 +36,7 @@ var profiles = map[string]func(g *gen){
 	"parsers":     (*gen).runParsers,
 	"codec":       (*gen).runCodec,
 	"helpers":     (*gen).runHelpers,
+	"mapspec":     (*gen).runMapSpec,
 }
 
 func profileNames() []string {
